@@ -16,8 +16,10 @@ the full statement as far as it can be closed without proving that Lemire's reje
   the call such that the first `j` draws of THIS run return, reaching state `gj`, and Lemire's loop for bound `n` runs
   out of fuel AT `gj`.
 * `idxDraw_eq_lemire` + `bootstrap_draw_law`, `shuffle_draw_law`: for `n ≥ 2` every drawn index is
-  `u64_less_than(n)` evaluated at the state of the run at that draw, so `lemire_uniform` (each index value has exactly
-  `⌊2^64/n⌋` accepted raw words) applies to each individual draw: every position is equally likely for an ideal word source.
+  `u64_less_than(n)` evaluated at the state of the run at that draw, and (`u64LessThan_first_accepted`) equals
+  `mulHi r n` for the FIRST word `r` of the generator's stream from that state that `lemireAccept` accepts; `lemire_uniform`
+  counts exactly `⌊2^64/n⌋` accepted words per index value.  (The step from these two facts to "uniform positions for an
+  ideal iid-uniform word source" is the standard rejection-sampling argument and is not formalised: no probability space.)
 * kernel-evaluated runs on inputs of length 3 and 5 instantiate every `= some` hypothesis of the `_partial` theorems.
 -/
 namespace Cv.C19
@@ -81,13 +83,16 @@ theorem draws_isSome {fuel n k : Nat} {g : Rng} (hn : 1 ≤ n) (hn' : n < 2 ^ 63
     exact this
 
 /-- In a returning run of index draws, for `n ≥ 2` the `j`-th index is `u64_less_than(n)` evaluated at the `j`-th state
-of the run; by `u64LessThan_accepts` it is the output `mulHi r n` of an accepted raw word `r`, and by `lemire_uniform`
-each of the `n` possible values has the same number `⌊2^64/n⌋` of accepted raw words. -/
+of the run, and it is `mulHi (word k) n` for the FIRST word of the generator's stream from that state (offsets `0, 1, 2, …`)
+that `lemireAccept` accepts, the `k` earlier words being rejected and exactly `k + 1` words consumed
+(`u64LessThan_first_accepted`); by `lemire_uniform` each of the `n` possible values has the same number `⌊2^64/n⌋` of
+accepted raw words. -/
 theorem draws_law {fuel n k : Nat} {g g' : Rng} {idxs : List Int} (hn : 2 ≤ n) (hn' : n < 2 ^ 63)
     (h : drawN? (idxDraw fuel n) k g = some (idxs, g')) (j : Nat) (hj : j < idxs.length) :
     ∃ gj gj' v, stateAfter (idxDraw fuel n) j g = some gj ∧
       u64LessThan fuel (UInt64.ofNat n) gj = some (v, gj') ∧ idxs[j] = (v.toNat : Int) ∧ v.toNat < n ∧
-      ∃ r : UInt64, lemireAccept (UInt64.ofNat n) r ∧ v = mulHi r (UInt64.ofNat n) := by
+      ∃ k, k ≤ fuel ∧ (∀ i, i < k → ¬ lemireAccept (UInt64.ofNat n) (word gj i)) ∧
+        lemireAccept (UInt64.ofNat n) (word gj k) ∧ v = mulHi (word gj k) (UInt64.ofNat n) ∧ gj' = nthState gj (k + 1) := by
   obtain ⟨gj, gj', hs, hf⟩ := drawN?_getElem h j hj
   rw [idxDraw_eq_lemire fuel hn hn', Option.map_eq_some_iff] at hf
   obtain ⟨p, hp, he⟩ := hf
@@ -96,7 +101,28 @@ theorem draws_law {fuel n k : Nat} {g g' : Rng} {idxs : List Int} (hn : 2 ≤ n)
   have hnat : (UInt64.ofNat n).toNat = n := toNat_ofNat_lt (by omega)
   have hlt := Rng.u64LessThan_lt hp' (by rw [UInt64.lt_iff_toNat_lt, hnat]; show 0 < n; omega)
   rw [UInt64.lt_iff_toNat_lt, hnat] at hlt
-  exact ⟨gj, gj', p.1, hs, hp', he.1.symm, hlt, Rng.u64LessThan_spec hp'⟩
+  exact ⟨gj, gj', p.1, hs, hp', he.1.symm, hlt, Rng.u64LessThan_first_accepted hp'⟩
+
+/-- **First accepted word** (restated from `Lemmas/C19Draws.lean`): a returning `u64_less_than(m)` from state `g` rejected
+the words at offsets `0 … k-1` of the stream from `g`, accepted the word at offset `k ≤ fuel`, returned its high product
+`mulHi (word g k) m`, and consumed exactly `k + 1` words. -/
+theorem u64LessThan_first_accepted {fuel : Nat} {m : UInt64} {g g' : Rng} {v : UInt64}
+    (h : u64LessThan fuel m g = some (v, g')) :
+    ∃ k, k ≤ fuel ∧ (∀ i, i < k → ¬ lemireAccept m (word g i)) ∧ lemireAccept m (word g k) ∧
+      v = mulHi (word g k) m ∧ g' = nthState g (k + 1) := Rng.u64LessThan_first_accepted h
+
+/-- Converse: if the first accepted word of the stream from `g` sits at offset `k ≤ fuel`, the draw returns its output. -/
+theorem u64LessThan_of_first_accepted {fuel k : Nat} {m : UInt64} {g : Rng} (hk : k ≤ fuel)
+    (hrej : ∀ i, i < k → ¬ lemireAccept m (word g i)) (hacc : lemireAccept m (word g k)) :
+    u64LessThan fuel m g = some (mulHi (word g k) m, nthState g (k + 1)) :=
+  Rng.u64LessThan_of_first_accepted hk hrej hacc
+
+/-- kernel-evaluated instance on a rejection-heavy bound -/
+example : ∃ k, k ≤ 64 ∧ lemireAccept 9223372036854775809 (word (Rng.ofSeed 3) k) := by
+  have h : (u64LessThan 64 9223372036854775809 (Rng.ofSeed 3)).isSome = true := by decide +kernel
+  obtain ⟨⟨v, g'⟩, hv⟩ := Option.isSome_iff_exists.1 h
+  obtain ⟨k, hk, _, ha, _⟩ := u64LessThan_first_accepted hv
+  exact ⟨k, hk, ha⟩
 
 /-! ## bootstrap -/
 
@@ -155,7 +181,9 @@ theorem bootstrap_draw_law {fuel : Nat} {d : List α} (hn : 2 ≤ d.length) (hle
     ∃ idxs : List Int, idxs.length = nb * d.length ∧ rs.flatten = pickAll d.toArray idxs ∧
       ∀ j (hj : j < idxs.length), ∃ gj gj' v, stateAfter (idxDraw fuel d.length) j g = some gj ∧
         u64LessThan fuel (UInt64.ofNat d.length) gj = some (v, gj') ∧ idxs[j] = (v.toNat : Int) ∧ v.toNat < d.length ∧
-        ∃ r : UInt64, lemireAccept (UInt64.ofNat d.length) r ∧ v = mulHi r (UInt64.ofNat d.length) := by
+        ∃ k, k ≤ fuel ∧ (∀ i, i < k → ¬ lemireAccept (UInt64.ofNat d.length) (word gj i)) ∧
+          lemireAccept (UInt64.ofNat d.length) (word gj k) ∧ v = mulHi (word gj k) (UInt64.ofNat d.length) ∧
+          gj' = nthState gj (k + 1) := by
   have hd : d ≠ [] := by intro h0; rw [h0] at hn; simp at hn
   obtain ⟨idxss, hrs, hdr⟩ := bootstrap_draws hd h
   refine ⟨idxss.flatten, (drawN?_spec (P := fun _ => True) (fun _ _ _ _ => trivial) hdr).1, ?_, ?_⟩
@@ -202,7 +230,9 @@ theorem shuffle_draw_law {fuel : Nat} {d r : List α} (hn : 2 ≤ d.length) (hle
     ∃ idxs : List Int, idxs.length = 4 * d.length ∧ r = (applySwaps d.toArray idxs).toList ∧
       ∀ j (hj : j < idxs.length), ∃ gj gj' v, stateAfter (idxDraw fuel d.length) j g = some gj ∧
         u64LessThan fuel (UInt64.ofNat d.length) gj = some (v, gj') ∧ idxs[j] = (v.toNat : Int) ∧ v.toNat < d.length ∧
-        ∃ w : UInt64, lemireAccept (UInt64.ofNat d.length) w ∧ v = mulHi w (UInt64.ofNat d.length) := by
+        ∃ k, k ≤ fuel ∧ (∀ i, i < k → ¬ lemireAccept (UInt64.ofNat d.length) (word gj i)) ∧
+          lemireAccept (UInt64.ofNat d.length) (word gj k) ∧ v = mulHi (word gj k) (UInt64.ofNat d.length) ∧
+          gj' = nthState gj (k + 1) := by
   have hd : d ≠ [] := by intro h0; rw [h0] at hn; simp at hn
   rw [shuffle_eq fuel hd, Option.map_eq_some_iff] at h
   obtain ⟨p, hp, he⟩ := h
